@@ -18,8 +18,7 @@ from dataclasses import dataclass, field
 
 from .exc import ExcLattice
 
-NORMAL_KINDS = ('n', 'T', 'F', 'iter', 'exhaust', 'ret', 'brk', 'cont', 'fall')
-EXC_KINDS = ('exc', 'xprop')
+NORMAL_KINDS = ('n', 'T', 'F', 'iter', 'exhaust')
 
 
 @dataclass
@@ -46,13 +45,14 @@ class Node:
 class Edge:
     src: int
     dst: int
-    kind: str  # n T F iter exhaust ret brk cont fall exc xprop
-    data: object = None  # raise-set for 'exc' (raised by src: its effects did not happen) and
-    #                      'xprop' (a pending exception goes on after a cleanup node completed)
+    kind: str  # branch label at src: n T F iter exhaust | exc (src raised: its effects did not happen)
+    data: object = None  # raise-set for 'exc' edges and for flow == 'xprop'
+    flow: str = ''  # 'xprop': a pending exception goes on after the cleanup node `src` completed
+    #                 (kind then still tells which branch of src was taken; its effects DID happen)
 
     @property
     def is_exc(self):
-        return self.kind in ('exc', 'xprop')
+        return self.kind == 'exc' or self.flow == 'xprop'
 
 
 class _Loop:
@@ -164,8 +164,7 @@ class CFG:
         self.exit_return = self._new('exit_return', None, [], lineno=func_node.end_lineno or 0)
         self.exit_raise = self._new('exit_raise', None, [], lineno=func_node.end_lineno or 0)
         out = self._stmts(func_node.body, [(self.entry, 'n', None)], [])
-        for p in out:
-            self._edge(p[0], self.exit_return, 'fall', None)
+        self._connect(out, self.exit_return)
 
     # ------------------------------------------------------------------
     def _new(self, kind, astnode, frames, lineno=None, **extra):
@@ -183,20 +182,22 @@ class CFG:
         self.nodes.append(n)
         return n.id
 
-    def _edge(self, src, dst, kind, data=None, back=False):
-        key = (src, dst, kind, data)
+    def _edge(self, src, dst, kind, data=None, back=False, flow=''):
+        key = (src, dst, kind, data, flow)
         if key in self._edgeset:
             return
         self._edgeset.add(key)
-        e = Edge(src, dst, kind, data)
+        e = Edge(src, dst, kind, data, flow)
         self.succ[src].append(e)
         self.pred[dst].append(e)
         if back:
             self.back_edges.add((src, dst))
 
     def _connect(self, preds, dst, back=False):
-        for n, k, d in preds:
-            self._edge(n, dst, k, d, back=back)
+        """preds: (node, kind, data[, flow]) tuples of dangling out-edges."""
+        for p in preds:
+            n, k, d = p[0], p[1], p[2]
+            self._edge(n, dst, k, d, back=back, flow=p[3] if len(p) > 3 else '')
 
     # ------------------------------------------------------------------
     def _raises(self, nid, frames):
@@ -215,7 +216,13 @@ class CFG:
             self._route_exc([(nid, 'exc', R)], R, frames)
 
     def _route_exc(self, preds, R, frames):
+        """Route the raise-set R from the dangling edges `preds` outward through `frames`.
+        preds carry kind 'exc' (the node raised) or a normal kind with flow 'xprop'."""
         R = frozenset(R)
+
+        def with_data(ps, data):
+            return [(p[0], p[1], data, p[3] if len(p) > 3 else '') for p in ps]
+
         i = len(frames) - 1
         while i >= 0 and R:
             f = frames[i]
@@ -223,21 +230,18 @@ class CFG:
                 for hnode, names in f.handlers:
                     enters, remaining = self.lat.split(R, names)
                     if enters:
-                        for n, k, _d in preds:
-                            self._edge(n, hnode, 'xprop' if k == 'xprop' else 'exc', enters)
+                        self._connect(with_data(preds, enters), hnode)
                     R = remaining
                     if not R:
                         break
             elif isinstance(f, _Cleanup):
-                exits = self._enter_cleanup(f, ('exc', R), preds, frames[:i])
-                # the pending exception continues after the cleanup completed normally:
-                # kind 'xprop' (the source node's effects DID happen), not 'exc'
-                self._route_exc([(n, 'xprop', R) for n, _k, _d in exits], R, frames[:i])
+                exits = self._enter_cleanup(f, ('exc', R), with_data(preds, R), frames[:i])
+                # the pending exception continues after the cleanup completed normally
+                self._route_exc([(p[0], p[1], R, 'xprop') for p in exits], R, frames[:i])
                 return
             i -= 1
         if R:
-            for n, k, _d in preds:
-                self._edge(n, self.exit_raise, 'xprop' if k == 'xprop' else 'exc', R)
+            self._connect(with_data(preds, R), self.exit_raise)
 
     def _enter_cleanup(self, f: _Cleanup, key, preds, outer):
         if key in f.copies:
@@ -267,17 +271,14 @@ class CFG:
             f = frames[i]
             if isinstance(f, _Cleanup):
                 preds = self._enter_cleanup(f, (kind,), preds, frames[:i])
-                preds = [(n, 'n', None) for n, _k, _d in preds]
             elif isinstance(f, _Loop) and kind in ('brk', 'cont'):
                 if kind == 'brk':
-                    f.breaks.extend((n, 'brk' if k in ('brk',) else k, d) for n, k, d in preds)
+                    f.breaks.extend(preds)
                 else:
-                    self._connect([(n, 'cont' if k == 'cont' else k, d) for n, k, d in preds], f.header, back=True)
+                    self._connect(preds, f.header, back=True)
                 return
             i -= 1
-        # return
-        for n, k, d in preds:
-            self._edge(n, self.exit_return, 'ret' if k == 'ret' else k, d)
+        self._connect(preds, self.exit_return)
 
     # ------------------------------------------------------------------
     def _stmts(self, stmts, preds, frames, pending=None):
@@ -300,7 +301,7 @@ class CFG:
             return [(n, 'n', None)]
         if isinstance(st, ast.Return):
             n = self._simple(st, preds, frames, pending)
-            self._jump([(n, 'ret', None)], 'ret', frames)
+            self._jump([(n, 'n', None)], 'ret', frames)
             return []
         if isinstance(st, ast.Raise):
             n = self._new('stmt', st, frames, pending=pending)
@@ -311,12 +312,12 @@ class CFG:
         if isinstance(st, ast.Break):
             n = self._new('stmt', st, frames, pending=pending)
             self._connect(preds, n)
-            self._jump([(n, 'brk', None)], 'brk', frames)
+            self._jump([(n, 'n', None)], 'brk', frames)
             return []
         if isinstance(st, ast.Continue):
             n = self._new('stmt', st, frames, pending=pending)
             self._connect(preds, n)
-            self._jump([(n, 'cont', None)], 'cont', frames)
+            self._jump([(n, 'n', None)], 'cont', frames)
             return []
         if isinstance(st, ast.If):
             t = self._new('test', st.test, frames, pending=pending, stmt=st)
@@ -376,7 +377,6 @@ class CFG:
             out = self._stmts(st.body, [(e, 'n', None)], inner, pending)
         if out:
             out = self._enter_cleanup(cf, ('fall',), out, frames)
-            out = [(n, 'n', None) for n, _k, _d in out]
         return out
 
     def _try(self, st, preds, frames, pending):
@@ -390,14 +390,13 @@ class CFG:
         body_out = self._stmts(st.body, preds, base + [tf], pending)
         outs = self._stmts(st.orelse, body_out, base, pending) if st.orelse else body_out
         for hn, h in hnodes:
-            caught = frozenset().union(*[e.data for e in self.pred[hn] if e.kind in ('exc', 'xprop')]) if self.pred[hn] else frozenset()
+            caught = frozenset().union(*[e.data for e in self.pred[hn] if e.is_exc]) if self.pred[hn] else frozenset()
             self.nodes[hn].extra['caught'] = caught
             if not self.pred[hn]:
                 continue  # unreachable under this fallibility table
             outs = outs + self._stmts(h.body, [(hn, 'n', None)], base + [_Handler(caught, h.name)], pending)
         if fin and outs:
             outs = self._enter_cleanup(fin, ('fall',), outs, frames)
-            outs = [(n, 'n', None) for n, _k, _d in outs]
         return outs
 
     def _raise_set(self, st: ast.Raise, frames, node):
@@ -423,7 +422,7 @@ class CFG:
         return self.nodes[nid]
 
     def normal_succ(self, nid):
-        return [e for e in self.succ[nid] if e.kind not in EXC_KINDS]
+        return [e for e in self.succ[nid] if not e.is_exc]
 
     def find(self, pred):
         return [n for n in self.nodes if pred(n)]
@@ -442,7 +441,7 @@ class CFG:
             for e in self.succ[n.id]:
                 b = ' (back)' if (e.src, e.dst) in self.back_edges else ''
                 d = f' {sorted(e.data)}' if e.data else ''
-                out.append(f'     -{e.kind}{d}-> {e.dst}{b}')
+                out.append(f'     -{e.kind}{"/" + e.flow if e.flow else ""}{d}-> {e.dst}{b}')
         return '\n'.join(out)
 
 
